@@ -1,5 +1,6 @@
 import Rare.Model.C13Lower
 import Rare.Proofs.C13Model
+import Rare.Proofs.C13Main
 /-! A repair of F19 that was examined and rejected (round 4c): `sorting.Sort` / `sorting.SortBy` show every element
 to the sorter, compared with itself (`less(x, x)`), before `sort.Sort` runs ("survey").  The sorters are plain Go
 funcs handed through generic `Sort[TElem, TSort ~func(a, b TElem) bool]` (pinned by the repo's tests), so calling the
@@ -37,5 +38,184 @@ only `2022-01-01` has a layout.  `ParseFloat`/`ToLower` are the models. -/
 def nestedWitness : Oracle := realOracle {
   dfmt := fun k => if k = asc "2022-01-01" then some 0 else none
   dparse := fun _ k => if k = asc "2022-01-01" then some 1640995200000000000 else none }
+
+/-! ### what the survey WOULD repair: `contextual` on every key set -/
+
+def TablesDisjoint (lower : Key → Key) (sets : List SortSet) : Prop :=
+  ∀ k (s1 s2 : SortSet), s1 ∈ sets → s2 ∈ sets → (s1.get (lower k)).isSome = true → (s2.get (lower k)).isSome = true → s1 = s2
+
+theorem infer_of_mem {lower : Key → Key} {sets : List SortSet} (hd : TablesDisjoint lower sets) {T : SortSet} (hT : T ∈ sets)
+    {k : Key} (hk : (T.get (lower k)).isSome = true) : inferSortSetByValue sets lower k = some T := by
+  unfold inferSortSetByValue
+  cases h : sets.find? (fun set => (set.get (lower k)).isSome) with
+  | none =>
+    rw [List.find?_eq_none] at h
+    exact absurd hk (by simpa using h T hT)
+  | some T' =>
+    have h1 := List.mem_of_find?_eq_some h
+    have h2 := List.find?_some h
+    rw [hd k T' T h1 hT h2 hk]
+
+theorem ctx_fallback_step (o : Oracle) (sets : List SortSet) (s : CtxState × Unit) (h : s.1.fallback = true) (a b : Key) :
+    byContextual o sets s a b = (byNameSmart o.num a b, s) := by
+  obtain ⟨⟨set, fb⟩, u⟩ := s
+  simp only at h
+  subst h
+  simp [byContextual, byContextualEx, pureCmp]
+
+theorem survey_fallback_sticky (o : Oracle) (sets : List SortSet) : ∀ (l : List Key) (s : CtxState × Unit),
+    s.1.fallback = true → survey (byContextual o sets) s l = s
+  | [], _, _ => rfl
+  | x :: xs, s, h => by
+    simp only [survey, List.foldl_cons]
+    rw [ctx_fallback_step o sets s h]
+    exact survey_fallback_sticky o sets xs s h
+
+theorem ctx_faithful_fallback (o : Oracle) (sets : List SortSet) (s : CtxState × Unit) (h : s.1.fallback = true) (P : Key → Prop) :
+    Faithful (byContextual o sets) s P (byNameSmart o.num) :=
+  ⟨fun t => t.1.fallback = true, h, fun t a b ht _ _ => by rw [ctx_fallback_step o sets t ht]; exact ⟨rfl, ht⟩⟩
+
+/-- one look at `x` from `set = T`, not fallen back -/
+theorem ctx_look_set (o : Oracle) (sets : List SortSet) (T : SortSet) (x : Key) :
+    (byContextual o sets ({ set := some T, fallback := false }, ()) x x).2 =
+      if (T.get (o.lower x)).isSome then ({ set := some T, fallback := false }, ()) else ({ set := some T, fallback := true }, ()) := by
+  cases h : T.get (o.lower x) with
+  | none => simp [byContextual, byContextualEx, pureCmp, h]
+  | some v => simp [byContextual, byContextualEx, h]
+
+theorem survey_from_set (o : Oracle) (sets : List SortSet) (hd : TablesDisjoint o.lower sets) (T : SortSet) (hT : T ∈ sets) :
+    ∀ l : List Key, (survey (byContextual o sets) ({ set := some T, fallback := false }, ()) l).1.fallback = true
+      ∨ ∀ x ∈ l, inferSortSetByValue sets o.lower x = some T
+  | [] => Or.inr (fun _ h => absurd h (by simp))
+  | x :: xs => by
+    simp only [survey, List.foldl_cons]
+    rw [ctx_look_set]
+    cases h : (T.get (o.lower x)).isSome with
+    | false =>
+      simp only [Bool.false_eq_true, if_false]
+      left
+      have := survey_fallback_sticky o sets xs ({ set := some T, fallback := true }, ()) rfl
+      simp only [survey] at this
+      rw [this]
+    | true =>
+      simp only [if_true]
+      rcases survey_from_set o sets hd T hT xs with h' | h'
+      · exact Or.inl h'
+      · right
+        intro y hy
+        rcases List.mem_cons.mp hy with rfl | hy
+        · exact infer_of_mem hd hT h
+        · exact h' y hy
+
+theorem ctx_look_fresh (o : Oracle) (sets : List SortSet) (x : Key) :
+    (byContextual o sets ({}, ()) x x).2 =
+      match inferSortSetByValue sets o.lower x with
+      | some T => ({ set := some T, fallback := false }, ())
+      | none => ({ set := none, fallback := true }, ()) := by
+  cases h : inferSortSetByValue sets o.lower x with
+  | none => simp [byContextual, byContextualEx, pureCmp, h]
+  | some T =>
+    have := infer_some_get h
+    obtain ⟨v, hv⟩ := Option.isSome_iff_exists.mp this
+    simp [byContextual, byContextualEx, h, hv]
+
+theorem survey_fresh (o : Oracle) (sets : List SortSet) (hd : TablesDisjoint o.lower sets) (x : Key) (xs : List Key) :
+    (survey (byContextual o sets) ({}, ()) (x :: xs)).1.fallback = true
+      ∨ ∃ T, ∀ y ∈ x :: xs, inferSortSetByValue sets o.lower y = some T := by
+  simp only [survey, List.foldl_cons]
+  rw [ctx_look_fresh]
+  cases h : inferSortSetByValue sets o.lower x with
+  | none =>
+    left
+    have := survey_fallback_sticky o sets xs ({ set := none, fallback := true }, ()) rfl
+    simp only [survey] at this
+    simp only [this]
+  | some T =>
+    have hT : T ∈ sets := List.mem_of_find?_eq_some h
+    rcases survey_from_set o sets hd T hT xs with h' | h'
+    · exact Or.inl h'
+    · right
+      refine ⟨T, fun y hy => ?_⟩
+      rcases List.mem_cons.mp hy with rfl | hy
+      · exact h
+      · exact h' y hy
+
+theorem ctxUniform_of_all {o : Oracle} {sets : List SortSet} {keys : List Key} {r : Option SortSet}
+    (h : ∀ k ∈ keys, inferSortSetByValue sets o.lower k = r) : ctxUniform o sets keys = true := by
+  cases keys with
+  | nil => rfl
+  | cons k0 rest =>
+    simp only [ctxUniform, List.all_eq_true]
+    intro k hk
+    rw [h k hk, h k0 (List.mem_cons_self ..)]
+    exact beq_self_eq_true _
+
+theorem contextualSpec_nonuniform (o : Oracle) (sets : List SortSet) (hd : TablesDisjoint o.lower sets) (keys : List Key)
+    (hu : ctxUniform o sets keys = false) : contextualSpec o sets keys = numericSpec o := by
+  unfold contextualSpec contextualSpecLess
+  rw [tablesOf_find]
+  cases h : sets.find? (fun set => keys.all (fun k => (set.get (o.lower k)).isSome)) with
+  | none => rfl
+  | some T =>
+    exfalso
+    have hT := List.mem_of_find?_eq_some h
+    have hall := List.find?_some h
+    rw [List.all_eq_true] at hall
+    have : ctxUniform o sets keys = true := ctxUniform_of_all (r := some T) (fun k hk => infer_of_mem hd hT (hall k hk))
+    rw [this] at hu
+    exact absurd hu (by decide)
+
+/-- with the survey step the `contextual` closure is set-level on EVERY key set -/
+theorem survey_ctx_faithful (o : Oracle) (sets : List SortSet) (hd : TablesDisjoint o.lower sets) (keys arrival : List Key)
+    (hp : arrival.Perm keys) :
+    Faithful (byContextual o sets) (survey (byContextual o sets) ({}, ()) arrival) (· ∈ keys) (contextualSpec o sets keys) := by
+  cases hu : ctxUniform o sets keys with
+  | true => exact (ctx_faithful o sets keys hu).after_survey arrival (fun x hx => hp.mem_iff.mp hx)
+  | false =>
+    rw [contextualSpec_nonuniform o sets hd keys hu]
+    have hfb : (survey (byContextual o sets) ({}, ()) arrival).1.fallback = true := by
+      cases arrival with
+      | nil =>
+        have : keys = [] := hp.symm.eq_nil
+        subst this
+        simp [ctxUniform] at hu
+      | cons x xs =>
+        rcases survey_fresh o sets hd x xs with h | ⟨T, h⟩
+        · exact h
+        · have : ctxUniform o sets keys = true :=
+            ctxUniform_of_all (r := some T) (fun k hk => h k (hp.mem_iff.mpr hk))
+          rw [this] at hu
+          exact absurd hu (by decide)
+    exact (ctx_faithful_fallback o sets _ hfb _).congr (fun a b _ _ => byNameSmart_eq_numeric o.num a b)
+
+
+theorem lookup_isSome_mem {β : Type} (v : Key) : ∀ l : List (Key × β), (l.lookup v).isSome = true → v ∈ l.map (·.1)
+  | [], h => by simp at h
+  | (k, x) :: rest, h => by
+    rw [List.lookup_cons] at h
+    cases hv : v == k with
+    | true => simp [eq_of_beq hv]
+    | false =>
+      rw [hv] at h
+      exact List.mem_cons_of_mem _ (lookup_isSome_mem v rest h)
+
+/-- the weekday and month tables share no name (whatever `ToLower` is) -/
+theorem sortSets_disjoint (lower : Key → Key) : TablesDisjoint lower sortSets := by
+  intro k s1 s2 h1 h2 g1 g2
+  have key : ∀ v : Key, (weekdays.get v).isSome = true → (months.get v).isSome = true → False := by
+    intro v hw hm
+    have hmem := lookup_isSome_mem v weekdays hw
+    have hall : (weekdays.map (·.1)).all (fun v => (months.get v).isNone) = true := by decide
+    rw [List.all_eq_true] at hall
+    have := hall v hmem
+    rw [Option.isNone_iff_eq_none] at this
+    rw [this] at hm
+    exact absurd hm (by decide)
+  simp only [sortSets, List.mem_cons, List.not_mem_nil, or_false] at h1 h2
+  rcases h1 with rfl | rfl <;> rcases h2 with rfl | rfl
+  · rfl
+  · exact (key _ g1 g2).elim
+  · exact (key _ g2 g1).elim
+  · rfl
 
 end Rare.C13
